@@ -14,6 +14,11 @@ func H_C16_Depth() {
 	s.parseState = vx.SymIntSlice("ps")
 	d := len(s.parseState)
 	vx.Assume(d <= maxNestingDepth)
+	if d >= 1 {
+		// the entry on top of the stack is an explicit symbolic value (so that the native twin sees the same
+		// one); the entries below it are arbitrary and irrelevant to a single step
+		s.parseState[d-1] = vx.Int("top")
+	}
 	c := vx.Byte("c")
 	switch vx.Choose("step", 3) {
 	case 0: // a value begins
